@@ -195,6 +195,15 @@ class Scen:
                 f.append((f"{other}.t{i}", lambda h=h, other=other: h.done() or h.set_result(other)))
         if not self.closed and "close" in self.case["faults"]:
             f.append(("connector.close", self._close))
+        if not self.closed and "burst" in self.case["faults"]:
+            # several things in one loop iteration: everything the environment could do now, and close() behind it
+            acts = [a for (_n, a) in self.menu()]
+            if acts:
+                def burst(acts=acts):
+                    for a in acts:
+                        a()
+                    self._close()
+                f.append(("burst+close", burst))
         return f
 
     def _close(self):
@@ -298,6 +307,11 @@ def cases(quick):
             for late in ([2], [1, 2]):
                 out.append({"tasks": 3, "hosts": hosts, "limit": lim, "per_host": per, "faults": ["cancel", "altmode"],
                             "reverse": False, "late": late})
+    # two or more events in one loop iteration, then close(): a release that wakes a waiter, a newcomer that takes the slot first
+    for hosts in ([0, 0, 0], [0, 0, 1]):
+        for lim, per in [(1, 0), (0, 1), (2, 1)]:
+            for late in ([2], [1, 2]):
+                out.append({"tasks": 3, "hosts": hosts, "limit": lim, "per_host": per, "faults": ["close", "burst"], "reverse": False, "late": late})
     if not quick:
         for hosts in host_maps[4]:
             for lim, per in [(1, 0), (2, 1), (2, 0)]:
